@@ -151,6 +151,17 @@ def deflate_opt():
     return weighted([(3, st.just(False)), (1, st.just(True)), (2, cfg)])
 
 
+COPTS_VALUES = {"poll": [0.5, 60.0], "ping_rate": [0, 1000.0], "ping_timeout": [None, 1000.0],
+                "close_timeout": [None, 0, 1000.0], "auto_pong": [True, False]}
+
+
+def copts_noise(keys=("poll", "ping_rate", "ping_timeout", "close_timeout", "auto_pong")):
+    """connect() options that must make no difference to the property at hand (timers far away, or off): every
+    documented option gets varied somewhere, also where it 'obviously' does not matter."""
+    opt = st.fixed_dictionaries({}, optional={k: st.sampled_from(COPTS_VALUES[k]) for k in keys})
+    return weighted([(2, st.just({})), (1, opt)])
+
+
 def companion(weight_none=5):
     """A second live connection in the same process (simnet.Companion): mostly none."""
     spec = st.fixed_dictionaries({"mode": st.sampled_from(["interleaved", "interleaved", "blocked_in_send"])})
